@@ -96,6 +96,10 @@ def print_str_args(rule, args, th):
             items = sorted(val.items(), key = lambda pair: pair[0])
             return pprint.N('{') + commas_join(pprint.N(key + ': ') + str_val(val)
                                                for key, val in items) + pprint.N('}')
+        elif isinstance(val, hol_type.TyInst):
+            items = sorted(val.items(), key = lambda pair: pair[0])
+            return pprint.N('{') + commas_join(pprint.N(key + ': ') + str_val(val)
+                                               for key, val in items) + pprint.N('}')
         elif isinstance(val, Term):
             if th and val == th.prop and rule != 'assume' and settings.highlight:
                 return pprint.Gray("⟨goal⟩")
